@@ -28,6 +28,8 @@ enum Op {
     Detach,
     ExternalReap,
     ChildExit, // the monitor makes the child exit now (code or signal fixed per case)
+    Stop,      // job control: somebody stops the child (SIGSTOP); it is suspended, not terminated
+    Cont,      // ... and continues it
 }
 
 #[derive(Clone, Copy, Debug, PartialEq)]
@@ -42,6 +44,10 @@ struct Kid {
 }
 
 fn spawn_ctl(ctx: &mut Ctx, dir: &std::path::Path) -> Option<(Popen, Kid)> {
+    spawn_ctl_cfg(ctx, dir, false)
+}
+
+fn spawn_ctl_cfg(ctx: &mut Ctx, dir: &std::path::Path, own_group: bool) -> Option<(Popen, Kid)> {
     let fifo = dir.join("ctl.fifo");
     let _ = std::fs::remove_file(&fifo);
     let c = std::ffi::CString::new(fifo.to_string_lossy().as_bytes()).unwrap();
@@ -56,7 +62,7 @@ fn spawn_ctl(ctx: &mut Ctx, dir: &std::path::Path) -> Option<(Popen, Kid)> {
         return None;
     }
     let argv = vec![ctx.vchild.clone().into_os_string(), OsString::from("ctl"), fifo.into_os_string()];
-    let m = run::monitored(|| Popen::create(&argv, PopenConfig::default()));
+    let m = run::monitored(|| Popen::create(&argv, PopenConfig { setpgid: own_group, ..Default::default() }));
     match m.result {
         Some(Ok(p)) => {
             let pid = p.pid().unwrap() as i32;
@@ -162,6 +168,9 @@ fn gen_history(rng: &mut Rng) -> Vec<Op> {
             }
             10 => Op::Detach,
             11 => Op::ExternalReap,
+            12 => {
+                if rng.chance(500) { Op::Stop } else { Op::ChildExit }
+            }
             _ => Op::ChildExit,
         };
         ops.push(op);
@@ -193,10 +202,27 @@ fn syscalls_about(evs: &[Ev], pid: i32) -> Vec<String> {
         .collect()
 }
 
+fn set_stopped(pid: i32, stop: bool) {
+    unsafe { crate::interpose::real_kill(pid, if stop { libc::SIGSTOP } else { libc::SIGCONT }) };
+    // wait until the kernel has acted on it
+    for _ in 0..5000 {
+        let st = crate::inspect::proc_state(pid);
+        if (st == Some('T')) == stop || st.is_none() || st == Some('Z') {
+            break;
+        }
+        std::thread::sleep(Duration::from_micros(100));
+    }
+}
+
 fn run_history(ctx: &mut Ctx, ops: &[Op], exit_how: (u8, u8), fl: &Flags, class: &str) {
     run::begin_case();
     let dir = ctx.scratch("life");
-    let (mut p, kid) = match spawn_ctl(ctx, &dir) {
+    // (the child is its own process group in part of the cases: a signal is for the process, never for its group)
+    let own_group = ops.len() % 3 == 0;
+    // ... and the handle is dropped by a panic unwinding through the caller's frame in part of them
+    let drop_by_panic = ops.len() % 4 == 1;
+    let mut stopped = false;
+    let (mut p, kid) = match spawn_ctl_cfg(ctx, &dir, own_group) {
         Some(x) => x,
         None => {
             ctx.inconclusive("could not start the controlled child", J::Null);
@@ -216,6 +242,26 @@ fn run_history(ctx: &mut Ctx, ops: &[Op], exit_how: (u8, u8), fl: &Flags, class:
     let hist = format!("{:?}", ops);
     let mk_w = |trace: &Vec<String>, extra: J| J::obj().set("history", J::s(&hist)).set("exit", J::s(&format!("{}{}", exit_how.0 as char, exit_how.1))).set("trace", J::arr_s(trace)).set("detail", extra);
     for (i, op) in ops.iter().enumerate() {
+        // a stopped child neither obeys the monitor nor dies of a pending signal: it is continued before anything that
+        // needs it to act; the stop lasts across the non-blocking queries in between
+        if stopped && !matches!(op, Op::Poll | Op::WaitTimeout(_) | Op::Pid | Op::ExitStatusQ | Op::Detach | Op::Stop) {
+            set_stopped(pid, false);
+            stopped = false;
+            trace.push("(job control: child continued)".into());
+        }
+        match op {
+            Op::Stop => {
+                if truth == Truth::Running && !reaped_externally && !stopped {
+                    set_stopped(pid, true);
+                    stopped = true;
+                    ctx.count("job_control_stops", 1);
+                    trace.push("job control: child stopped (suspended, still alive)".into());
+                }
+                continue;
+            }
+            Op::Cont => continue,
+            _ => {}
+        }
         // make blocking calls safe: a wait on a running child is preceded by the child's exit
         if matches!(op, Op::Wait) && truth == Truth::Running && !reaped_externally && observed.is_none() {
             if let Some(s) = make_exit(&kid, exit_how) {
@@ -481,16 +527,28 @@ fn run_history(ctx: &mut Ctx, ops: &[Op], exit_how: (u8, u8), fl: &Flags, class:
         }
     }
     // ---- drop
+    if stopped {
+        set_stopped(pid, false);
+    }
     if truth == Truth::Running && !reaped_externally {
         // do not let a non-detached drop block on a child that never exits
         if let Some(s) = make_exit(&kid, exit_how) {
             truth = Truth::Dead(s);
         }
     }
-    let m = run::monitored(move || drop(p));
+    let m = run::monitored(move || {
+        let _handle = p;
+        if drop_by_panic {
+            panic!("the caller panics while it holds the handle");
+        }
+    });
     let evs = m.events();
     let about = syscalls_about(&evs, pid);
     ctx.count("drops", 1);
+    if drop_by_panic {
+        ctx.count("drops_by_a_panic_unwinding_through_the_caller", 1);
+        trace.push(format!("handle dropped by unwinding; syscalls: {:?}", about));
+    }
     if observed.is_some() && !about.is_empty() {
         viol(ctx, fl.c09, "C09/syscall-after-final/drop", "dropping the handle made system calls about a child whose status had been reported", mk_w(&trace, J::arr_s(&about)));
     }
